@@ -75,7 +75,7 @@ func (p *idsPeer) request() *frame.Frame {
 	id := f.Header.StreamId
 	tag, _ := tagOf(f)
 	p.seen = append(p.seen, id)
-	if id < 1 || int(id) > p.n {
+	if (id < 1 || int(id) > p.n) && !strings.HasPrefix(tag, "x") { // "x..." requests carry caller-chosen ids
 		p.o.Fail("C09:wire-id-out-of-range", "CqlClientConnection.Send", "request %s arrived at the peer with stream id %d; the limit is N=%d", tag, id, p.n)
 	}
 	if other, dup := p.outstanding[id]; dup {
@@ -256,6 +256,7 @@ func IdsHarness(name string, op IdsOpts, bound int) *explore.Harness {
 					if op.Extras && j == 0 {
 						// a response nobody asked for, then an event, ahead of the first real response
 						p.write(pageFor(op.V, int16(op.N+3), "spurious#1", 1, true))
+						p.write(pageFor(op.V, -7, "spurious#neg", 1, true)) // unknown and negative: still a response, not an event
 						p.write(frame.NewFrame(op.V, -1, &message.StatusChangeEvent{ChangeType: primitive.StatusChangeTypeUp, Address: &primitive.Inet{Addr: []byte{10, 0, 0, 1}, Port: 9042}}))
 					}
 					if paged && j == 0 {
@@ -269,6 +270,15 @@ func IdsHarness(name string, op IdsOpts, bound int) *explore.Harness {
 				if paged {
 					p.respond(reqs[order[0]], op.Pages, true)
 				}
+			}
+			if op.Extras {
+				// two requests with caller-chosen negative ids (legal: any non-zero id), answered in reverse order
+				x1, x2 := p.request(), p.request()
+				if x1 == nil || x2 == nil {
+					return
+				}
+				p.respond(x2, 1, true)
+				p.respond(x1, 1, true)
 			}
 		})
 		if err := cc.InitiateHandshake(op.V, 1); err != nil {
@@ -309,7 +319,40 @@ func IdsHarness(name string, op IdsOpts, bound int) *explore.Harness {
 				}
 			})
 		}
-		sched.Op("join", 0, func() bool { return done == op.K && peerDone })
+		sched.Op("join-senders", 0, func() bool { return done == op.K })
+		sched.Sleep(int64(time.Millisecond)) // every request of the two waves is fully retired: the window is empty again
+		explicitOK := true
+		if op.Extras {
+			var rs []client.InFlightRequest
+			lowest := int16(-32768)
+			if op.V == primitive.ProtocolVersion2 {
+				lowest = -128 // one-byte stream ids
+			}
+			for k, id := range []int16{-2, lowest} {
+				f := queryV(op.V, fmt.Sprintf("x%d", k))
+				f.Header.StreamId = id
+				r, err := cc.Send(f)
+				if err != nil {
+					o.Fail("C09:explicit-id-refused", "CqlClientConnection.Send", "a request with the caller-chosen stream id %d (not in use, %d of N=%d unanswered) was refused: %v", id, len(rs), op.N, err)
+					explicitOK = false
+					break
+				}
+				if r.StreamId() != id {
+					o.Fail("C09:explicit-id-changed", "CqlClientConnection.Send", "caller-chosen stream id %d became %d", id, r.StreamId())
+				}
+				rs = append(rs, r)
+			}
+			for k, r := range rs {
+				if got, want := strings.Join(collect(r), ","), fmt.Sprintf("x%d#1", k); got != want {
+					o.Fail("C10:misdelivery", "CqlClientConnection.processIncomingFrame", "request x%d (caller-chosen stream id %d) received [%s], expected exactly [%s] (err=%v)", k, r.StreamId(), got, want, r.Err())
+				}
+			}
+		}
+		if !explicitOK {
+			sched.Atomic(func() { _ = cc.Close() })
+			return
+		}
+		sched.Op("join", 0, func() bool { return peerDone })
 		sched.Sleep(int64(time.Millisecond)) // let the incoming loop finish handling the last frames
 		if p.err != "" {
 			o.Fail("peer", "raw peer", "%s", p.err)
